@@ -17,7 +17,8 @@ RULE = ('random systems on Line/Square/Cube with 1..4 unknowns (scalar or vector
 ASSUMPTIONS = [
     'sympy equality of functions (class and name) is what `variable in trials` / `trials.index` use; the '
     'generator keeps names unique inside a system, so identity and equality coincide on the sampled inputs',
-    'the in-place set_position on the caller\'s EssentialBC is filed under C12; every Equation gets fresh conditions',
+    'condition objects are mutable (set_position): the oracle runs multi-step histories in which the same EssentialBC '
+    'objects are used for several equations and then repositioned by the caller, and re-reads every earlier equation',
     'Dot orders its arguments by their string representation: the model compares Dot nodes up to exchanging the '
     'arguments (asserted by the correspondence on both argument orders)',
     'constraint= is not modelled (always None); NewtonIteration is not modelled',
@@ -387,6 +388,39 @@ def correspondence(ctx):
             line = 'C18 equation %s %s "a" "l" %s %s %s' % (dumps(lb), dumps(rl), dumps(tser), dumps(vser), dumps(bser))
             info = dict(label=label, nfaces=[len(it[1]['faces']) for it in items if it[0] == 'bc'], ntrials=len(S.trials))
             cases.append(('equation', line, impl, info))
+    # --- histories: the same condition objects used for several equations, then repositioned by the caller;
+    #     after every step everything observable (entries of ALL equations, the caller's objects) is compared
+    count0 = System.count
+    for i in range(240 if ctx.thorough else 40):
+        try:
+            H = History(history_rng(ctx.tier, 'corr-%s' % ctx.seed, i), m, i)
+        except Exception as e:
+            c.count('history:unbuildable:' + type(e).__name__)
+            continue
+        ops = [[A('new'), ser_bc_args(lhs, d['rhs'], bnd, d['pos0'], d['ic0'], m)] for d, _, lhs, bnd in H.pool]
+        eqs = []
+
+        def observe():
+            return 'ok ' + dumps([[A('eqs')] + [[ser_cond(b, m) for b in (eq.bc or [])] for eq in eqs],
+                                  [A('callers')] + [ser_cond(obj, m) for _, obj, _, _ in H.pool]])
+        failed = False
+        for st in H.steps:
+            ops.append([A('build'), [ser_fn(u, m) for u in st['trials']], list(st['use'])])
+            try:
+                eqs.append(H.build(st))
+                impl = observe()
+            except Exception as e:
+                impl, failed = err_of(e), True
+            cases.append(('history', 'C18 history ' + ' '.join(dumps(x) for x in ops), impl, 'build'))
+            if failed:
+                break
+        if failed:
+            continue
+        for j, pnew in H.repos:
+            ops.append([A('repos'), j, pnew])
+            H.pool[j][1].set_position(pnew)
+            cases.append(('history', 'C18 history ' + ' '.join(dumps(x) for x in ops), observe(), 'reposition'))
+    System.count = count0
     outs = ctx.driver.run([x[1] for x in cases])
     for (kind, line, impl, info), out in zip(cases, outs):
         c.evaluations += 1
@@ -401,6 +435,9 @@ def correspondence(ctx):
             c.disagreements.append({'input': line, 'impl': impl, 'model': out, 'note': kind + ':' + str(info)})
         if kind == 'classify':
             c.count('lhs:' + info)
+            c.nontrivial.add(line)
+        elif kind == 'history':
+            c.count('history:' + info)
             c.nontrivial.add(line)
         else:
             c.count('eq:' + info['label'])
@@ -498,6 +535,184 @@ def check_equation(o, S, decls, use_find, m):
     return None
 
 
+# --------------------------------------------------------------------------- histories
+
+class History:
+    """a multi-step scenario: ONE pool of EssentialBC objects (the caller's), used to build 2-3 equations
+    whose trial lists are permutations / extensions of the system's, then the caller repositions its
+    own objects.  Everything is a function of the given rng, so that (tier, seed, index) identifies it."""
+
+    def __init__(self, rng, m, number):
+        System.count = 900000 + number
+        S = self.S = System(rng, m)
+        self.m = m
+        npool = rng.choice([1, 2, 2, 3, 4])
+        self.pool = []          # (decl, object, lhs, boundary)
+        for j in range(npool):
+            d = S.rand_decl(rng)
+            if j == 0 or rng.random() < 0.5:
+                d['faces'] = d['faces'][:1]          # a single face: Union(f) is f itself
+            if rng.random() < 0.7:
+                d['pos0'] = None
+            obj, lhs, bnd = S.make(d)
+            self.pool.append((d, obj, lhs, bnd))
+        pairs = list(zip(S.trials, S.tests))
+        spare = []
+        for u, kind in S.extra:
+            v = u.space.element('t_' + u.name)
+            spare.append((u, v))
+        self.steps = []
+        last = None
+        for k in range(rng.choice([2, 2, 3])):
+            for attempt in range(6):
+                ps = list(pairs)
+                rng.shuffle(ps)
+                for sp in spare:
+                    if rng.random() < 0.4:
+                        ps.insert(rng.randrange(len(ps) + 1), sp)
+                if [x[0] for x in ps] != last:
+                    break
+            last = [x[0] for x in ps]
+            trials, tests = [x[0] for x in ps], [x[1] for x in ps]
+            if rng.random() < 0.65:
+                use = list(range(npool))
+            else:
+                use = sorted(rng.sample(range(npool), rng.randrange(1, npool + 1)))
+            if rng.random() < 0.3:
+                rng.shuffle(use)
+            self.steps.append(dict(trials=trials, tests=tests, use=use, find=rng.random() < 0.25))
+        self.repos = [(j, rng.choice([0, 1, 5, 9])) for j in range(npool) if rng.random() < 0.6]
+
+    def forms(self, step):
+        m = self.m
+        dot, integral = m['dot'], m['integral']
+        expr = rexpr = 0
+        for u, v in zip(step['trials'], step['tests']):
+            expr = expr + (dot(u, v) if isinstance(u, m['VectorFunction']) else u * v)
+            rexpr = rexpr + (v[0] if isinstance(v, m['VectorFunction']) else v)
+        return integral(self.S.domain, expr), integral(self.S.domain, rexpr)
+
+    def build(self, step):
+        m = self.m
+        le, re_ = self.forms(step)
+        bc = [self.pool[j][1] for j in step['use']]
+        if step['find']:
+            return m['find'](tuple(step['trials']), forall=tuple(step['tests']), lhs=le, rhs=re_, bc=bc)
+        a = m['BilinearForm']((tuple(step['trials']), tuple(step['tests'])), le)
+        l = m['LinearForm'](tuple(step['tests']), re_)
+        return m['Equation'](a, l, tuple(step['trials']), tuple(step['tests']), bc=bc)
+
+    def expected(self, step):
+        """the entries equation.bc must have, by the statement of the property: list of dicts"""
+        m, S = self.m, self.S
+        out = []
+        for j in step['use']:
+            d, obj, lhs, bnd = self.pool[j]
+            order, ic, normal = S.expected(d['shape'], d['fn'], d['comp'], d['ic0'])
+            pos = [i for i, u in enumerate(step['trials']) if u is d['fn']][0]
+            for f in (list(bnd.args) if isinstance(bnd, m['Union']) else [bnd]):     # the order kept by Union
+                out.append(dict(lhs=lhs, rhs=m['Integer'](d['rhs']) if isinstance(d['rhs'], int) else d['rhs'], boundary=f,
+                                order=order, variable=d['fn'], index_component=ic, normal_component=normal, position=pos))
+        return out
+
+    def describe(self):
+        S = self.S
+        return dict(system='trials=%s dim=%d' % ([u.name for u in S.trials], S.dim),
+                    pool=[decl_str(S, d) for d, _, _, _ in self.pool],
+                    equations=['trials=%s conditions=%s%s' % ([u.name for u in st['trials']], st['use'], ' (find)' if st['find'] else '')
+                               for st in self.steps],
+                    repositions=self.repos)
+
+
+ATTRS = ('lhs', 'rhs', 'boundary', 'order', 'variable', 'index_component', 'normal_component', 'position')
+
+
+def read_cond(b):
+    """ALL attributes of a condition object, re-read from the object"""
+    ic = b.index_component
+    return dict(lhs=b.lhs, rhs=b.rhs, boundary=b.boundary, order=b.order, variable=b.variable,
+                index_component=None if ic is None else [int(i) for i in ic],
+                normal_component=bool(b.normal_component), position=b.position, args=tuple(b.args))
+
+
+def diff_cond(obs, exp):
+    for name in exp:
+        same = (obs[name] is exp[name]) if name == 'variable' else (obs[name] == exp[name])
+        if not same:
+            return '%s = %r, expected %r' % (name, obs[name], exp[name])
+    return None
+
+
+def check_history(o, H, m):
+    """runs the scenario on the real code; after EVERY step all attributes of all entries of ALL equations
+    built so far and of the caller's objects are read again and compared with the snapshots.
+    Returns (key, what) or None."""
+    callers = [read_cond(obj) for _, obj, _, _ in H.pool]
+    eqs, snaps, exps = [], [], []
+
+    def reread(after):
+        for k, eq in enumerate(eqs):
+            got = [read_cond(b) for b in (eq.bc or [])]
+            if len(got) != len(snaps[k]):
+                return ('history:earlier-equation-changed', 'after %s equation #%d has %d bc entries, it had %d' % (after, k, len(got), len(snaps[k])))
+            for n, (g, s0, e0) in enumerate(zip(got, snaps[k], exps[k])):
+                bad = diff_cond(g, s0) or diff_cond(g, e0)
+                if bad:
+                    return ('history:earlier-equation-changed',
+                            'after %s, entry %d of equation #%d (trials %s) has %s: it no longer describes its own equation' % (
+                                after, n, k, [u.name for u in H.steps[k]['trials']], bad))
+        for j, (_, obj, _, _) in enumerate(H.pool):
+            bad = diff_cond(read_cond(obj), callers[j])
+            if bad:
+                return ('history:caller-changed', 'after %s the caller\'s condition #%d (%s) has %s: building an equation changed its input' % (
+                    after, j, H.describe()['pool'][j], bad))
+        return None
+
+    for k, st in enumerate(H.steps):
+        try:
+            eq = H.build(st)
+        except Exception as e:
+            return ('history:equation-raises', 'equation #%d (trials %s) raises %s(%s) for admitted conditions on its trial functions' % (
+                k, [u.name for u in st['trials']], type(e).__name__, e))
+        exp = H.expected(st)
+        got = [read_cond(b) for b in (eq.bc or [])]
+        if len(got) != len(exp):
+            return ('history:entries', 'equation #%d has %d bc entries, the declarations account for %d' % (k, len(got), len(exp)))
+        for n, (g, e0) in enumerate(zip(got, exp)):
+            bad = diff_cond(g, e0)
+            if bad:
+                return ('history:entry-wrong', 'entry %d of equation #%d (trials %s) has %s' % (n, k, [u.name for u in st['trials']], bad))
+        eqs.append(eq)
+        snaps.append(got)
+        exps.append(exp)
+        bad = reread('building equation #%d' % k)
+        if bad:
+            return bad
+        o.count('history:equations-reread:%d' % len(eqs))
+    # the caller goes on using its own objects
+    for j, p in H.repos:
+        H.pool[j][1].set_position(p)
+        callers[j] = read_cond(H.pool[j][1])
+        bad = reread('the caller set the position of its own condition #%d to %d' % (j, p))
+        if bad:
+            return (bad[0].replace('caller-changed', 'caller-reposition'), bad[1])
+    shared = sum(1 for j in range(len(H.pool)) if sum(1 for st in H.steps if j in st['use']) >= 2)
+    o.count('history:ok:shared-conditions:%d' % min(shared, 3))
+    o.count('history:single-face-shared' if any(len(H.pool[j][0]['faces']) == 1 and sum(1 for st in H.steps if j in st['use']) >= 2
+                                                 for j in range(len(H.pool))) else 'history:no-single-face-shared')
+    moved = 0
+    for j in range(len(H.pool)):
+        ps = {[i for i, u in enumerate(st['trials']) if u is H.pool[j][0]['fn']][0] for st in H.steps if j in st['use']}
+        moved += len(ps) > 1
+    o.count('history:unknown-at-different-indices' if moved else 'history:same-indices')
+    return None
+
+
+def history_rng(tier, seed, i):
+    import random
+    return random.Random('C18/history/%s/%s/%d' % (tier, seed, i))
+
+
 def oracle(ctx, factor, seeds):
     m = mods()
     o = Oracle()
@@ -528,6 +743,20 @@ def oracle(ctx, factor, seeds):
                    shape='u.n', kind=kind, vector=True, dim=S.dim)
         else:
             o.count('fixed-corpus:u.n:' + kind)
+    # histories: shared condition objects across several equations (deterministic in (tier, seed, index))
+    nhist = (1500 if ctx.thorough else 250) * factor
+    count0 = System.count
+    for i in range(nhist):
+        try:
+            H = History(history_rng(ctx.tier, ctx.seed, i), m, i)
+        except Exception as e:
+            o.count('history:unbuildable:' + type(e).__name__)
+            continue
+        o.evaluations += 1
+        bad = check_history(o, H, m)
+        if bad:
+            o.fail('%s:%d' % (bad[0], i), bad[1], history=i, scenario=H.describe())
+    System.count = count0
     for _ in range(nsys):
         S = System(rng, m)
         for j in range(per):
@@ -579,5 +808,16 @@ def replay(ctx, path):
         except Exception as e:
             print('REPLAY: still failing: %s(%s)' % (type(e).__name__, e))
             return 1
+    if 'history' in det:
+        m = mods()
+        i = int(det['history'])
+        H = History(history_rng(d.get('tier'), d.get('seed'), i), m, i)
+        print('REPLAY: history #%d: %s' % (i, json.dumps(H.describe(), default=str)))
+        bad = check_history(Oracle(), H, m)
+        if bad:
+            print('REPLAY: still failing: %s' % bad[1])
+            return 1
+        print('REPLAY: the recorded history passes now')
+        return 0
     print('REPLAY: re-run `VERIF_SEED=%s ./check C18 --tier %s` to regenerate the system (systems are random objects)' % (d.get('seed'), d.get('tier')))
     return 0
